@@ -413,7 +413,10 @@ func scans[T inverted.Invertable](d *Driver, o kindOps[T], pool, must []T, be st
 		for i, v := range table {
 			k, e := enc(v)
 			if e != 0 {
-				return fmt.Errorf("encode failed for table value %v", v)
+				// a value of the quantified domain that the encoder refuses: for the spec to judge (no action
+				// of KeyCodecTrace.tla explains it), not a driver failure
+				d.TW.Emit("EncodeRefused", M{"fn": o.name, "p": o.pat(v), "what": fmt.Sprintf("%v", v)})
+				return nil
 			}
 			ok := 1
 			if err := b.Put(k, conversion.Uint64ToBytes(uint64(i))); err != nil {
